@@ -191,3 +191,53 @@ package check
 //@   ensures[comment-of-the-other-kind-is-not-used] true
 //@   loop range:oneComment.LineVec exits-early-only-if [every-line-of-the-block-is-used] false
 //@ end
+
+// ---- C08: the first pass over one file (parse + first traversal), and the unchanged-content short cut ----
+//@ func (*AllProject).analysisFirstLuaFile
+//@   props C08
+//@   requires f != nil
+//@   ensures[short-cut-only-for-content-read-from-disk-and-identical-to-the-analysed-one] !changeFlag ==> content == nil && beforeStruct != nil
+//@        && hits("bytes.Equal#0") == 1 && hits("CreateParser#0") == 0
+//@   ensures[changed-or-given-content-is-parsed-and-traversed] changeFlag && handleResult != results.FileHandleReadErr ==>
+//@        hits("CreateParser#0") == 1 && hits("BeginAnalyze#0") == 1 && hits("HandleFirstTraverseAST#0") == 1 && hits("AnalysisAllComment#0") == 1
+//@   ensures[given-content-is-never-short-cut] content != nil ==> changeFlag
+//@   at call bytes.Equal#0 before assert[short-cut-compares-the-stored-text-with-the-new-one] arg0 == beforeStruct.Contents && arg1 == f.Contents
+//@   at call CreateParser#0 before assert[parser-gets-the-text-under-analysis] arg0 == f.Contents && streq(arg1, luaFile)
+//@   at call InsertError#0 before assert[every-syntax-error-becomes-a-type-1-diagnostic] arg1 == common.CheckErrorSyntax && arg2 == oneErr.ErrStr && arg3 == oneErr.Loc
+//@   loop range:errList exits-early-only-if [every-syntax-error-is-recorded] false
+//@   loop range:errList step [every-syntax-error-is-recorded] hits("InsertError#0") == prev(hits("InsertError#0")) + 1
+//@ end
+
+// the result of a worker replaces the stored first-pass result exactly when something changed; the last good result of a
+// file that now has syntax errors is kept in the LRU cache (once), for the requests that need an AST
+//@ func (*AllProject).recvWorkChann
+//@   props C08
+//@   ensures[changed-result-replaces-the-stored-one] changeFlag == chanResult.returnChangeFlag && (changeFlag ==> hits("insertFirstFileStruct#0") == 1) && (!changeFlag ==> hits("insertFirstFileStruct#0") == 0)
+//@   at call insertFirstFileStruct#0 before assert[stored-under-the-files-own-name] streq(arg1, chanResult.strFile) && arg2 == chanResult.returnFileStruct
+//@   at call Set#0 before assert[last-good-result-cached-only-when-the-new-one-has-syntax-errors] chanResult.saveContentFlag && flag && !cacheFlag
+//@ end
+
+//@ func GoRoutineFirstWork
+//@   props C08
+//@   at call analysisFirstLuaFile#0 before assert[each-file-is-analysed-into-a-record-of-its-own] arg1 == fileStruct && streq(arg2, request.strFile) && arg4 == request.saveContentFlag && !arg5
+//@   at call analysisFirstLuaFile#0 before assert[the-text-is-read-from-disk] len(arg3) == 0
+//@   at call analysisFirstLuaFile#0 before assert[the-record-is-fresh] hits("CreateFileStruct#0") == hits("analysisFirstLuaFile#0")
+//@   loop 0 invariant hits("CreateFileStruct#0") == hits("analysisFirstLuaFile#0")
+//@ end
+
+// ---- C09: the per-file cap of workspace symbols ----
+// candidates are collected in map-iteration order; a per-file list longer than the cap is cut only after it has been
+// put into the total order (C09 Less contract), so what survives the cut does not depend on the collection order
+//@ func goroutineFindSymbols
+//@   props C09
+//@   loop 0 step [a-candidate-list-is-cut-only-after-sorting] resultLen > maxSymbols ==> hits("sort.Sort#0") == prev(hits("sort.Sort#0")) + 1
+//@   at call sort.Sort#0 before assert[the-list-that-is-cut-is-the-one-sorted] typeis(arg0, "*check.resultSorter") && as(arg0, "*check.resultSorter") == resultSorter
+//@ end
+//@ func (*AllProject).FindWorkspaceAllSymbol
+//@   props C09 C19
+//@   ensures[C09,merged-list-is-sorted-before-the-cap-and-the-answer] hits("sort.Sort#0") == 1 && hits("handleAllFilesSymbols#0") == 1
+//@   at call sort.Sort#0 before assert[C09,everything-is-collected-before-sorting] hits("handleAllFilesSymbols#0") == 1
+//@   loop range:a.fileStructMap exits-early-only-if [C19,every-analysed-file-is-queried] false
+//@   loop range:a.fileStructMap step [C19,every-analysed-file-is-queried] fileStruct.HandleResult == results.FileHandleOk ==> len(fileList) == prev(len(fileList)) + 1
+//@   loop range:resultSort.results exits-early-only-if [C19,every-surviving-symbol-is-returned] false
+//@ end
